@@ -3,5 +3,5 @@ REGISTRY = {
     'C01': p_framing, 'C03': p_framing, 'C06': p_framing, 'C07': p_framing,
     'C04': p_status,
     'C02': p_call, 'C05': p_call, 'C08': p_call,
-    'C12': p_simple,
+    'C12': p_simple, 'C10': p_simple,
 }
